@@ -291,7 +291,7 @@ func check(prop, tier string, seed int64, scratch string, t0 time.Time) int {
 	if err != nil {
 		internal("building the %s worker failed:\n%v", variant, err)
 	}
-	budget := 100 * time.Second
+	budget := 240 * time.Second // (the quick checks take 5 - 80 s on an idle machine; the budget only matters under load)
 	if tier == "thorough" {
 		budget = 15 * time.Minute
 	}
